@@ -47,7 +47,7 @@ class C20(Check):
             fam, iters = fi
             d = C.scratch_dir("race")
             try:
-                case = {"family": fam, "goroutines": G, "iters": iters * mult}
+                case = {"family": fam, "goroutines": G, "iters": iters * mult, "deadline_s": 240 if self.tier == "quick" else 700}
                 p = subprocess.run([race, "conc"], input=json.dumps(case) + "\n", cwd=d, stdout=subprocess.PIPE, stderr=subprocess.PIPE, text=True, timeout=900,
                                    env=dict(os.environ, GORACE="halt_on_error=0 exitcode=66"))
                 res = None
